@@ -8,6 +8,8 @@
 From Servitor Require Import Base Unicode Ansi AnsiSpec Term Style Html Gemtext Plaintext.
 From Servitor.Facts Require Import TermFacts StyleFacts HtmlFacts MarkupFacts.
 Local Open Scope Z_scope.
+From Servitor Require Import Mime Pub.
+From Servitor.Facts Require Import HtmlFacts MarkupFacts PubFacts.
 
 (* every JSON string is scrubbed on extraction: no control character but newline survives, for ALL texts *)
 Theorem scrub_clean :
@@ -83,3 +85,54 @@ Theorem safe_wf :
   forallb (fun c : cell => printable (letter c)) cs = true -> safe_b (collapse cs) = true.
 Proof. exact safe_wf_fact. Qed.
 Print Assumptions safe_wf.
+
+(* the NAME of a post (title, or the error text standing in for it) is well-formed styled text of printable letters whenever the stored fields are (strings from the sanitising accessors, names of related items, renderings of the body) *)
+Theorem post_name_good :
+  forall (col : colors) (p : post), colors_ok col -> post_good p -> good (post_name col p).
+Proof. exact post_name_good_fact. Qed.
+Print Assumptions post_name_good.
+
+(* the FULL TEXT of a post - header with title, kind, authors, recipients, age; body; numbered attachments; footer - at every width *)
+Theorem post_string_good :
+  forall (col : colors) (p : post) (w : Z),
+  colors_ok col -> post_good p -> good (post_string col p w).
+Proof. exact post_string_good_fact. Qed.
+Print Assumptions post_string_good.
+
+(* the PREVIEW of a post exists (no panic) and is well-formed, at every width *)
+Theorem post_preview_good :
+  forall (col : colors) (p : post) (w : Z),
+  colors_ok col -> post_good p -> exists r : text, post_preview col p w = Ok r /\ good r.
+Proof. exact post_preview_good_fact. Qed.
+Print Assumptions post_preview_good.
+
+(* names, full texts and previews of profiles *)
+Theorem actor_name_good :
+  forall (col : colors) (a : actor), colors_ok col -> actor_good a -> good (actor_name col a).
+Proof. exact actor_name_good_fact. Qed.
+Print Assumptions actor_name_good.
+
+Theorem actor_string_good :
+  forall (col : colors) (a : actor) (w : Z),
+  colors_ok col -> actor_good a -> good (actor_string col a w).
+Proof. exact actor_string_good_fact. Qed.
+Print Assumptions actor_string_good.
+
+Theorem actor_preview_good :
+  forall (col : colors) (a : actor) (w : Z),
+  colors_ok col -> actor_good a -> exists r : text, actor_preview col a w = Ok r /\ good r.
+Proof. exact actor_preview_good_fact. Qed.
+Print Assumptions actor_preview_good.
+
+(* error items show any message - whatever bytes the library or the server put into it - as sanitised red text *)
+Theorem failure_good :
+  forall (col : colors) (m : text) (w : Z),
+  colors_ok col -> good (failure_name col m) /\ good (failure_string col m w).
+Proof. exact failure_good_fact. Qed.
+Print Assumptions failure_good.
+
+(* well-formed styled text of printable letters is terminal-safe and attribute-neutral at every line break and at the end *)
+Theorem item_safe_neutral :
+  forall t : text, good t -> safe_b t = true /\ neutral_b t = true.
+Proof. exact item_safe_neutral_fact. Qed.
+Print Assumptions item_safe_neutral.
